@@ -1473,6 +1473,70 @@ impl Ms {
                 }
                 let _ = expired;
             }
+            // the point queries tell the same story as the listings
+            {
+                let mut who: Vec<String> = pool().actors.clone();
+                who.push(w.stranger.clone());
+                for (i, o) in post.iter().enumerate() {
+                    let id = w.props[i].id;
+                    for a in &who {
+                        let r: Res<cw3::VoteResponse> = w.c.query(&w.ms, &cw3_fixed_multisig::msg::QueryMsg::Vote { proposal_id: id, voter: a.clone() });
+                        let Res::Ok(r) = r else {
+                            h.violate(&format!("C06/{kind:?}/query/vote-query-failed"), format!("Vote{{{id}, {a}}}"));
+                            return false;
+                        };
+                        let listed = o.ballots.iter().find(|b| &b.0 == a).cloned();
+                        let point = r.vote.map(|v| (v.voter, v.vote, v.weight));
+                        h.out.oracle_checks += 1;
+                        if listed != point {
+                            h.violate(&format!("C06/{kind:?}/query/vote-query-differs-from-listing"), format!("proposal {id} voter {a}: Vote says {point:?}, ListVotes says {listed:?}"));
+                            return false;
+                        }
+                    }
+                }
+                // ListVoters / Voter against the membership the monitor knows
+                let mut listed: Vec<(String, u64)> = vec![];
+                let mut cursor: Option<String> = None;
+                loop {
+                    let page: Res<cw3::VoterListResponse> = w.c.query(&w.ms, &cw3_fixed_multisig::msg::QueryMsg::ListVoters { start_after: cursor.clone(), limit: Some(30) });
+                    let Res::Ok(page) = page else { break };
+                    if page.voters.is_empty() {
+                        break;
+                    }
+                    cursor = page.voters.last().map(|v| v.addr.clone());
+                    listed.extend(page.voters.into_iter().map(|v| (v.addr, v.weight)));
+                    if listed.len() > 500 {
+                        break;
+                    }
+                }
+                let expect: Vec<(String, u64)> = match kind {
+                    Kind::Fixed => w.fixed_voters.iter().map(|(a, x)| (a.clone(), *x)).collect(),
+                    Kind::Flex => w.gmodel.keys().filter_map(|a| w.group_weight_now(a).map(|x| (a.clone(), x))).collect(),
+                };
+                let mut l2 = listed.clone();
+                l2.sort();
+                h.out.oracle_checks += 1;
+                if l2 != expect {
+                    h.violate(&format!("C06/{kind:?}/query/voter-list-differs-from-membership"), format!("ListVoters {listed:?}, membership {expect:?}"));
+                    return false;
+                }
+                for a in &who {
+                    let r: Res<cw3::VoterResponse> = w.c.query(&w.ms, &cw3_fixed_multisig::msg::QueryMsg::Voter { address: a.clone() });
+                    let point = match r {
+                        Res::Ok(r) => r.weight,
+                        _ => {
+                            h.violate(&format!("C06/{kind:?}/query/voter-query-failed"), format!("Voter{{{a}}}"));
+                            return false;
+                        }
+                    };
+                    h.out.oracle_checks += 1;
+                    if point != w.is_member_now(a) {
+                        h.violate(&format!("C06/{kind:?}/query/voter-query-differs-from-membership"), format!("Voter{{{a}}} = {point:?}, membership says {:?}", w.is_member_now(a)));
+                        return false;
+                    }
+                }
+                h.out.count("point_queries_compared_with_listings");
+            }
             if let (Op::Vote { id, vote }, Some(o)) = (op, target_pre) {
                 let m = &w.props[*id as usize - 1];
                 let s = m.snapshot.get(sender).cloned();
@@ -1942,6 +2006,7 @@ impl Monitor for Ms {
                 "status_moves_Open_to_Rejected",
             ],
             "C06" => vec![
+                "point_queries_compared_with_listings",
                 "directed_scenarios_completed",
                 "histories_fixed",
                 "histories_flex",
